@@ -10,10 +10,13 @@ import (
 	"encoding/json"
 	"encoding/pem"
 	"errors"
+	"fmt"
 	"math/big"
+	"math/rand"
 	"net/url"
 	"reflect"
 	"sort"
+	"sync"
 	"time"
 
 	"github.com/google/go-tdx-guest/pcs"
@@ -28,17 +31,17 @@ import (
 // Scenario is one concrete verification call: what is handed to verify.TdxQuote
 // / RawTdxQuote and what the getter will answer.
 type Scenario struct {
-	Raw     []byte      // used when Msg == nil && !UseMsg
-	Msg     *pb.QuoteV4 // used when UseMsg
-	UseMsg  bool
-	NilOpts bool
+	Raw                             []byte      // used when Msg == nil && !UseMsg
+	Msg                             *pb.QuoteV4 // used when UseMsg
+	UseMsg                          bool
+	NilOpts                         bool
 	CheckRevocations, GetCollateral bool
-	Now     *verify.TimeSet
-	Roots   []*x509.Certificate // nil => embedded Intel root
-	Resp    map[string]world.Resp
-	Wall    time.Time
-	Extra   []*x509.Certificate // abstracted along with the world; results in ExtraS
-	ExtraS  []core.Sexp
+	Now                             *verify.TimeSet
+	Roots                           []*x509.Certificate // nil => embedded Intel root
+	Resp                            map[string]world.Resp
+	Wall                            time.Time
+	Extra                           []*x509.Certificate // abstracted along with the world; results in ExtraS
+	ExtraS                          []core.Sexp
 }
 
 const timeOffset = int64(1) << 37
@@ -58,16 +61,16 @@ func init() {
 
 // abstraction of a scenario into the model's world
 type abstractor struct {
-	certID   map[string]uint64
-	certs    []*x509.Certificate
-	pemTab   map[string]core.Sexp
-	unesc    map[string]core.Sexp
-	tcbJSON  map[string]core.Sexp
-	qeJSON   map[string]core.Sexp
-	crlTab   map[string]core.Sexp
-	hexTab   map[string]core.Sexp
-	crls     map[string]*x509.RevocationList
-	sigMsgs  []sigMsg // (message, raw signature) pairs whose verification may be asked for
+	certID  map[string]uint64
+	certs   []*x509.Certificate
+	pemTab  map[string]core.Sexp
+	unesc   map[string]core.Sexp
+	tcbJSON map[string]core.Sexp
+	qeJSON  map[string]core.Sexp
+	crlTab  map[string]core.Sexp
+	hexTab  map[string]core.Sexp
+	crls    map[string]*x509.RevocationList
+	sigMsgs []sigMsg // (message, raw signature) pairs whose verification may be asked for
 }
 
 type sigMsg struct{ msg, sig []byte }
@@ -359,7 +362,7 @@ func msgSignedParts(q *pb.QuoteV4) (hb, bb, rb []byte) {
 
 type quoteView struct {
 	signedMsg, sig, attKey, qeReport, qeSig, auth, chain []byte
-	ok                                                  bool
+	ok                                                   bool
 }
 
 func viewOf(sc *Scenario) quoteView {
@@ -556,6 +559,75 @@ func (sc *Scenario) run() (obs core.Sexp, err error, pan any, opts *verify.Optio
 		}
 	}
 	return core.Ls(core.A(errClass(err, pan)), core.Ls(urls...)), err, pan, o
+}
+
+// ---- history independence ------------------------------------------------
+//
+// A verdict must not depend on what the same Options value was used for before
+// (verification keeps per-call state in unexported fields of Options). priorCall
+// is an honest call, with collateral and revocation checking, for a world of its
+// own; runAfterPrior executes it and then the scenario on the same Options value
+// with the scenario's exported fields assigned.
+var priorOnce sync.Once
+var priorSc *Scenario
+
+func priorCall() *Scenario {
+	priorOnce.Do(func() {
+		r := rand.New(rand.NewSource(20261001)) // not the case generator's stream
+		pki, err := world.NewPKI(r, world.PKIOpts{Now: baseTime, Ext: world.RandomSGXExt(r)})
+		if err != nil {
+			return
+		}
+		w, err := world.BuildWorld(r, baseTime, pki, world.DefaultQuoteFields(r))
+		if err != nil {
+			return
+		}
+		priorSc = scenarioFromWorld(w, true, true)
+	})
+	return priorSc
+}
+
+// runAfterPrior returns ok=false when the comparison cannot be made.
+func (sc *Scenario) runAfterPrior() (cl uint64, err error, ok bool) {
+	prior := priorCall()
+	if prior == nil || sc.NilOpts {
+		return 0, nil, false
+	}
+	o, _ := prior.options()
+	var perr error
+	if pan := safely(func() { perr = verify.RawTdxQuote(prior.Raw, o) }); pan != nil || perr != nil {
+		return 0, nil, false
+	}
+	o2, _ := sc.options()
+	o.CheckRevocations, o.GetCollateral, o.Getter, o.Now, o.TrustedRoots = o2.CheckRevocations, o2.GetCollateral, o2.Getter, o2.Now, o2.TrustedRoots
+	pan := safely(func() {
+		if sc.UseMsg {
+			err = verify.TdxQuote(sc.Msg, o)
+		} else {
+			err = verify.RawTdxQuote(sc.Raw, o)
+		}
+	})
+	return errClass(err, pan), err, true
+}
+
+// historyGT compares the verdict of a fresh Options value with the verdict after
+// the prior call. acceptSide: report a quote accepted only after the prior call
+// (the authenticity properties); otherwise report a quote rejected only after it
+// (the completeness property).
+func (sc *Scenario) historyGT(fresh uint64, acceptSide bool) string {
+	cl, err, ok := sc.runAfterPrior()
+	if !ok || cl == fresh {
+		return ""
+	}
+	switch {
+	case cl == 2:
+		return "verification panicked when the Options value had been used for an earlier call"
+	case acceptSide && fresh != 0 && cl == 0:
+		return fmt.Sprintf("rejected (class %d) with a fresh Options value but accepted when the same Options value had first been used for an honest call about another platform (stale per-call state)", fresh)
+	case !acceptSide && fresh == 0 && cl != 0:
+		return fmt.Sprintf("accepted with a fresh Options value but rejected when the same Options value had first been used for an honest call about another platform: %v", err)
+	}
+	return ""
 }
 
 // scenarioFromWorld: the honest call for a world at one of the three levels.
